@@ -395,6 +395,16 @@ def lin_cases(ctx, n_cases, jobs, src, seeds=None):
         kw = {} if rng.random() < 0.5 else dict(tol=1e-13)
         desc = dict(kind='lin_solver', sym=P['sym'], d=d, hermitian=herm, ncv=ncv, case_seed=rng.case_seed, v0='zero' if v0.norm() == 0 else 'random')
         ctx.case(desc, nontrivial=d >= 2)
+        if rng.random() < 0.1 and v.norm() > 0:
+            # the initial guess already solves the system (b = f(v0) bit for bit): the answer is v0 with residual 0
+            ctx.count('lin_solver:exact-initial-guess')
+            try:
+                x_, res_ = yastn.lin_solver(f, f(v), v, ncv=ncv, hermitian=herm, **kw)
+                if float(res_) != 0.0 or float((x_ - v).norm()) != 0.0:
+                    ctx.violation('lin_solver started from the exact solution returns residual %r and moves the vector by %r' % (float(res_), float((x_ - v).norm())), dict(desc, v0='exact'))
+            except yastn.YastnError as e:
+                ctx.violation('lin_solver started from the exact solution raised YastnError: %s' % str(e)[:100], dict(desc, v0='exact'), family='lin-solver-exact-start')
+            continue
         try:
             (x, res), rec = traced_dims('lin_solver', 'Q', lambda: yastn.lin_solver(f, b, v0, ncv=ncv, hermitian=herm, **kw))
         except (IndexError, KeyError, ValueError) as e:
